@@ -340,4 +340,19 @@ def rule_sequencing(ctx):
     ctx.floor("SEQ", "mir_append_sites", n_out, 2)
 
 
-RULES = [rule_sequencing, rule_induction, rule_definition, rule_from_specification, rule_general_lemma]
+def rule_taken_at_call_site(ctx):
+    """The `taken` set against which definitions are checked is what the task really contains: the input predicates and every predicate of
+    the two sides as they are emitted (the program side after rename_predicates), not the sets computed from the sources before renaming."""
+    fx = ctx.facts
+    b = fx.fn("decompose", impl_self=EE + "ExternalEquivalenceTask")
+    ev = sym.Eval(fx, inline_depth=0)
+    v = ev.function(b)
+    calls = [x for x in sym.subterms(v) if isinstance(x, tuple) and x[:2] == ("call", "ProofOutline::from_specification")]
+    tk = ev.last_env.get("taken_predicates", [None])[-1]
+    rt = repr(tk)
+    ok = len(calls) >= 1 and tk is not None and all(c[2][1] == tk for c in calls) and "rename_predicates" in rt and rt.count("Formula::predicates") >= 2 and "input_predicates" in rt
+    ctx.add("SEQ", "taken-at-call-site", ok, ctx.site(b),
+            "ProofOutline::from_specification receives taken = input predicates + predicates of the left formulas + predicates of the renamed right formulas")
+
+
+RULES = [rule_sequencing, rule_induction, rule_definition, rule_from_specification, rule_general_lemma, rule_taken_at_call_site]
